@@ -104,6 +104,34 @@ Definition c19_td_row (T : table) (x : descr) (o : td_obs) : list bool :=
     && match o_v1 o, o_rtv o with inr v, Some r => descr_eqb r v | _, _ => true end ]
   ++ pad_slots_env.
 
+(* ---- pilot descriptions: same observation, no aliases ---- *)
+Definition ok_pd_untouched (T : table) (c v : descr) : bool :=
+  eqb_list String.eqb (map fst c) (map fst v)
+  && forallb (fun kv => match cast_of T (fst kv) c with
+                        | Some x => val_eqb (getv (fst kv) v) x
+                        | None => false
+                        end) c.
+
+Definition c19_pd_row (T : table) (x : descr) (o : td_obs) : list bool :=
+  [ descr_eqb (construct T x) (o_c o)
+    && descr_eqb (construct T (as_dict (o_c o))) (o_rt o)
+    && res_eqb (pd_verify T (o_c o)) (o_v1 o)
+    && match o_v1 o with
+       | inr v => eqb_option res_eqb (Some (pd_verify T v)) (o_v2 o)
+                  && eqb_option descr_eqb (Some (construct T (as_dict v))) (o_rtv o)
+       | inl _ => true
+       end;
+    match o_v1 o with
+    | inr v => match o_v2 o with Some (inr v') => descr_eqb v v' | _ => false end
+    | inl _ => true
+    end;
+    true;
+    match o_v1 o with inr v => pd_rules v | inl _ => true end;
+    match o_v1 o with inr v => ok_pd_untouched T (o_c o) v | inl _ => true end;
+    descr_eqb (o_rt o) (o_c o)
+    && match o_v1 o, o_rtv o with inr v, Some r => descr_eqb r v | _, _ => true end ]
+  ++ pad_slots_env.
+
 (* ---- slots ---- *)
 Definition occ_eqb := eqb_option Z.eqb.
 Definition ros_eqb := eqb_list (eqb_prod Z.eqb occ_eqb).
